@@ -165,7 +165,8 @@ func c07One(o *out, tmpl string, params map[string]interface{}, tag string) {
 		return
 	}
 	// every placeholder the statement was accepted with must have been bound under exactly its name
-	if err == nil && !strings.Contains(tmpl, ";") {
+	// (the plain lexer cannot tell the inside of a regular expression: templates with a '/' are left out)
+	if err == nil && !strings.Contains(tmpl, ";") && !strings.Contains(tmpl, "/") {
 		sc := influxql.NewScanner(strings.NewReader(tmpl))
 		for i := 0; i < len(tmpl)+2; i++ {
 			tok, _, lit := sc.Scan()
@@ -355,10 +356,39 @@ func c07Payload(o *out, tmpl string, s0 string) {
 	}
 }
 
+// a parser's bindings are the ones of the latest SetParams call: nothing of an earlier call is left behind
+func c07Rebind(o *out, tmpl string, first, second map[string]interface{}) {
+	o.count("rebind")
+	o.checked()
+	rp := map[string]interface{}{"op": "params_rebind", "text": tmpl, "params": fmt.Sprintf("%#v then %#v", first, second)}
+	p := influxql.NewParser(strings.NewReader(tmpl))
+	p.SetParams(first)
+	p.SetParams(second)
+	var st influxql.Statement
+	var err error
+	if pn := safely(func() { st, err = p.ParseStatement() }); pn != nil {
+		o.fail("", fmt.Sprintf("%q after SetParams(%v); SetParams(%v) panics: %v", tmpl, first, second, pn), rp)
+		return
+	}
+	fresh := influxql.NewParser(strings.NewReader(tmpl))
+	fresh.SetParams(second)
+	st2, err2 := fresh.ParseStatement()
+	if (err == nil) != (err2 == nil) || err == nil && stmtSexp(st) != stmtSexp(st2) {
+		o.fail("", fmt.Sprintf("%q after SetParams(%v); SetParams(%v): %s, but with SetParams(%v) alone: %s", tmpl, first, second, errStr(err), second, errStr(err2)), rp)
+	}
+}
+
 func propC07(o *out, r *rng, thorough bool) {
 	vals := c07Values(r)
 	for _, v := range vals {
 		c07Bind(o, v)
+	}
+	for _, t := range c07Templates {
+		c07Rebind(o, t, map[string]interface{}{"p": int64(1), "q": "old"}, map[string]interface{}{"q": "new"})
+		c07Rebind(o, t, map[string]interface{}{"p": int64(1), "q": "old"}, map[string]interface{}{"p": int64(2)})
+		c07Rebind(o, t, map[string]interface{}{"p": int64(1), "q": "old"}, map[string]interface{}{})
+		c07Rebind(o, t, map[string]interface{}{"p": int64(1), "q": "old"}, nil)
+		c07Rebind(o, t, nil, map[string]interface{}{"p": "x", "q": int64(3)})
 	}
 	reps := 1
 	if thorough {
@@ -412,6 +442,10 @@ func propC07(o *out, r *rng, thorough bool) {
 
 func init() {
 	props["C07"] = propC07
+	replayers["params_rebind"] = func(o *out, rp map[string]interface{}) {
+		c07Rebind(o, rpStr(rp, "text"), map[string]interface{}{"p": int64(1), "q": "old"}, map[string]interface{}{"q": "new"})
+		c07Rebind(o, rpStr(rp, "text"), map[string]interface{}{"p": int64(1), "q": "old"}, nil)
+	}
 	replayers["params"] = func(o *out, rp map[string]interface{}) {
 		fmt.Println("replay of a parameter case: template", rpStr(rp, "text"), "params", rpStr(rp, "params"), "- re-running the whole template set")
 		r := newRng(1)
